@@ -381,7 +381,7 @@ func run(c *core.Ctx) {
 	// runs, only for such operations, the cross-pass comparisons are skipped.
 	timeDependent := func(ti, oi int) bool {
 		o := plans[ti].ops[oi]
-		return clockFault && o.readsClock && !namedFamily(o.name)
+		return o.noCompare || (clockFault && o.readsClock && !namedFamily(o.name))
 	}
 
 	// ---- O2 baseline, before anything touches the values
